@@ -108,7 +108,6 @@ class C10Stream(TaskMsgStream):
         return None
 
 
-STREAMS = [C10Stream()]
 
 META = {
     "level_text": (
@@ -124,3 +123,248 @@ META = {
     "technique": _c09.META["technique"],
     "design_ref": "5/C10",
 }
+
+
+# ==========================================================================
+# batch level: Scheduler.process_queued_task_messages
+# ==========================================================================
+import json as _json
+from vp.core import Stream
+from vp.props import taskmsg_common as _T
+from vp import coqfmt as _q
+
+BATCH_PREFIXES = [
+    [], [["prep"]], [["prep"], ["subres", True]],
+    [["prep"], ["subres", True], ["msg", "started", "received", 0]],
+    [["prep"], ["msg", "started", "received", 0], ["msg", "succeeded", "received", 0]],
+    [["prep"], ["msg", "started", "received", 0], ["msg", "failed/ERR", "received", 0]],
+    [["prep"], ["subres", False]],
+    [["prep"], ["msg", "started", "received", 0], ["msg", "failed", "received", 0], ["prep"],
+     ["subres", True]],
+]
+BATCH_SYMS = ["submitted", "started", "succeeded", "failed", "submission failed", "custom", "other",
+              "expired"]
+
+
+def _batch_msg(rng, k):
+    sym = rng.choice(BATCH_SYMS[:7] + ["started", "started", "custom", "other", "submitted", "failed"])
+    if rng.random() < 0.03:
+        sym = "expired"
+    return [_T._text(rng, sym, k), rng.choices([0, -1, 1], [8, 2, 1])[0]]
+
+
+def gen_batch(rng):
+    n, m, k = rng.randint(0, _T.NMAX), rng.randint(0, _T.NMAX), rng.randint(0, _T.KMAX)
+    pre = [list(o) for o in rng.choice(BATCH_PREFIXES)]
+    if rng.random() < 0.25:
+        pre = _T.gen_random(rng, 5)["ops"]
+    batch = [_batch_msg(rng, k) for _ in range(rng.randint(1, 5))]
+    c = {"n": n, "m": m, "k": k, "pre": pre, "batch": batch, "in_pool": rng.random() > 0.08,
+         "kind": "batch"}
+    if rng.random() < 0.3:
+        # messages of a second pool task (succeeded) interleaved in the same queue
+        c["decoy"] = [rng.choice(["started", "hello world", "failed"]) for _ in range(rng.randint(1, 3))]
+    return c
+
+
+def _call_queue(fx, tasks, queue_items):
+    """put TaskMsg objects on a real queue and call the real
+    Scheduler.process_queued_task_messages on a stub scheduler object"""
+    import queue
+    from types import SimpleNamespace
+    from cylc.flow.id import Tokens
+    from cylc.flow.network.resolvers import TaskMsg
+    from cylc.flow.scheduler import Scheduler
+
+    polled = []
+    by_id = {t.identity: t for t in tasks.values() if t is not None}
+    schd = SimpleNamespace(
+        message_queue=queue.Queue(),
+        pool=SimpleNamespace(_get_task_by_id=lambda id_: by_id.get(id_)),
+        # messages of tasks that are not in the pool go to process_job_message (job-only
+        # bookkeeping in the data store / DB, outside this model): stubbed
+        task_events_mgr=SimpleNamespace(
+            process_message=fx["tem"].process_message,
+            FLAG_RECEIVED=fx["tem"].FLAG_RECEIVED,
+            process_job_message=lambda *a, **k: True),
+        task_job_mgr=SimpleNamespace(poll_task_jobs=lambda itasks, msg=None: polled.append(list(itasks))),
+        tokens=Tokens("~u/vp-taskmsg"),
+        config=SimpleNamespace(get_taskdef=lambda name: fx["cfg"].taskdefs[name]),
+    )
+    for name, subnum, text in queue_items:
+        schd.message_queue.put(TaskMsg(Tokens(f"1/{name}/{subnum:02d}", relative=True),
+                                       "2020-01-01T00:00:00Z", "INFO", text))
+    Scheduler.process_queued_task_messages(schd)
+    return polled
+
+
+def _subnum(itask, rel):
+    n = itask.submit_num + rel
+    return n if n >= 0 else itask.submit_num + 1      # any other number is stale alike
+
+
+def run_batch_case(c):
+    decoy_case = {"n": 2, "m": 2, "k": 2} if (c["n"], c["m"], c["k"]) != (2, 2, 2) else {"n": 0, "m": 0, "k": 0}
+    decoy_pre = [["prep"], ["msg", "started", "received", 0], ["msg", "succeeded", "received", 0]]
+    out = {}
+    for mode in ("batch", "singles"):
+        fx, tdef, itask = _T.new_task(c)
+        rec = fx["rec"]
+        for op in c["pre"]:
+            _T.apply_op(fx, tdef, itask, op)
+        decoy = None
+        if c.get("decoy"):
+            _, dtdef, decoy = _T.new_task(decoy_case)
+            for op in decoy_pre:
+                _T.apply_op(fx, dtdef, decoy, op)
+        before = _T._observe(itask, [])
+        rec["eff"] = []
+        tasks = {"main": itask if c["in_pool"] else None, "decoy": decoy}
+        items = [(tdef.name, _subnum(itask, rel), text) for text, rel in c["batch"]]
+        ditems = [(decoy.tdef.name, decoy.submit_num, text) for text in c.get("decoy", [])] if decoy else []
+        if mode == "batch":
+            merged = []
+            for i in range(max(len(items), len(ditems))):
+                merged += items[i:i + 1] + ditems[i:i + 1]
+            calls = _call_queue(fx, tasks, merged)
+            out["before"] = before
+            out["after"] = _T._observe(itask, rec["eff"])
+            out["polled"] = any(itask in l for l in calls)
+            out["decoy_polled"] = bool(decoy) and any(decoy in l for l in calls)
+            out["calls"] = [len(l) for l in calls]
+            out["dups"] = any(len(set(map(id, l))) != len(l) for l in calls)
+        else:
+            singles, eff = [], []
+            for it in items:
+                b = _T._observe(itask, [])
+                rec["eff"] = []
+                calls = _call_queue(fx, tasks, [it])
+                eff += rec["eff"]
+                singles.append({"st": b["st"], "exec": b["exec"], "sub": b["sub"],
+                                "polled": any(itask in l for l in calls)})
+            dpoll = False
+            for it in ditems:
+                dpoll = any(decoy in l for l in _call_queue(fx, tasks, [it])) or dpoll
+            out["singles"] = singles
+            out["singles_after"] = _T._observe(itask, eff)
+            out["decoy_singles_polled"] = dpoll
+    return out
+
+
+class BatchStream(Stream):
+    name = "taskbatch"
+    coq_import = "From Cylc Require Import Gen.TaskMsgTables Model.TaskMsg Model.TaskBatch."
+    check_fn = "TaskBatch.check_case"
+    show_fn = "TaskBatch.model_out"
+    needs_scratch_home = True
+    n_hashseeds = 4
+    rule = ("a real TaskProxy brought to a generated state (8 fixed prefixes or random ops), then 1-5 TaskMsg objects "
+            "(lifecycle messages incl. backward/duplicate ones, custom/progress texts, stale submit numbers; sometimes "
+            "interleaved with messages of a second pool task, sometimes the task is not in the pool) on a real queue "
+            "processed by the real Scheduler.process_queued_task_messages (stub scheduler object); compared: final task, "
+            "spawn/retry effects, whether poll_task_jobs got the task; the same messages are also delivered as "
+            "single-message batches; thorough adds all batches of length <= 3 over 8 texts x 8 prefixes; "
+            "non-trivial = batch of >= 2 messages in which some message asks for a poll or changes the status")
+
+    def corpus(self):
+        return [
+            # late 'started' for a failed task, then a progress message (the last message does not ask for a poll)
+            {"n": 0, "m": 0, "k": 1, "in_pool": True, "kind": "batch",
+             "pre": [["prep"], ["msg", "started", "received", 0], ["msg", "failed/ERR", "received", 0]],
+             "batch": [["started", 0], ["out 0 done", 0]]},
+            {"n": 0, "m": 0, "k": 0, "in_pool": True, "kind": "batch", "decoy": ["started", "hello world"],
+             "pre": [["prep"], ["subres", True]], "batch": [["submitted", 0], ["hello world", 0], ["started", -1]]},
+            {"n": 1, "m": 0, "k": 0, "in_pool": False, "kind": "batch",
+             "pre": [["prep"], ["msg", "started", "received", 0], ["msg", "succeeded", "received", 0]],
+             "batch": [["started", 0], ["failed", 0]]},
+        ]
+
+    def gen(self, rng, tier):
+        cases = [gen_batch(rng) for _ in range(450 if tier == "quick" else 4000)]
+        if tier == "thorough":
+            import itertools
+            for pre in BATCH_PREFIXES:
+                for ln in (1, 2, 3):
+                    for combo in itertools.product(BATCH_SYMS, repeat=ln):
+                        cases.append({"n": rng.randint(0, 1), "m": rng.randint(0, 1), "k": 1, "in_pool": True,
+                                      "pre": [list(o) for o in pre], "kind": "batch-exhaustive",
+                                      "batch": [[_T.custom_msg(0) if s == "custom" else
+                                                 ("hello world" if s == "other" else s), 0] for s in combo]})
+        return cases
+
+    def impl(self, cases):
+        out = []
+        for c in cases:
+            try:
+                out.append(run_batch_case(c))
+            except Exception as e:  # noqa
+                import traceback
+                out.append({"exc": f"{type(e).__name__}: {e}", "tb": traceback.format_exc()[-1500:]})
+        return out
+
+    def coq_case(self, c, r):
+        if "exc" in r:
+            return None
+        return _q.crecord(
+            b_n=_q.cnat(c["n"]), b_m=_q.cnat(c["m"]), b_k=_q.cnat(c["k"]),
+            b_pre=_q.clist(_T.op_coq(o) for o in c["pre"]),
+            b_inpool=_q.cbool(c["in_pool"]),
+            b_batch=_q.clist(_q.cpair(_T.msg_coq(t), _q.cz(rel)) for t, rel in c["batch"]),
+            b_impl=_T.obs_coq(r["after"]), b_polled=_q.cbool(r["polled"]))
+
+    def oracle(self, c, r):
+        if "exc" in r:
+            return "[exception] unexpected exception: " + r["exc"]
+        v = []
+        if r["dups"] or len(r["calls"]) > 1:
+            v.append(("poll-calls", f"poll_task_jobs calls {r['calls']} (duplicates: {r['dups']})"))
+        if not c["in_pool"]:
+            if not same_state(r["after"], r["before"]) or r["after"]["eff"] or r["polled"]:
+                v.append(("not-in-pool", "a task that is not in the pool was changed or polled"))
+        else:
+            want = False
+            for (text, rel), s in zip(c["batch"], r["singles"]):
+                kind = _T.msg_kind(text)
+                ask = (rel == 0 and backwards(kind, s["st"])
+                       and not (s["st"] == "waiting" and lined_up(s)))
+                if s["polled"] != ask:
+                    v.append(("single-poll", f"message {text!r} rel {rel} in status {s['st']}: poll requested = "
+                              f"{s['polled']}, backward = {ask}"))
+                want = want or ask
+            if r["polled"] != want:
+                v.append(("batch-poll", f"batch {c['batch']}: task polled = {r['polled']} but "
+                          f"{'a' if want else 'no'} message of the batch would move the status backwards"))
+            if r["polled"] != any(s["polled"] for s in r["singles"]):
+                v.append(("batch-vs-singles-poll", f"batch polled = {r['polled']}, single-message batches "
+                          f"{[s['polled'] for s in r['singles']]}"))
+            if not same_state(r["after"], r["singles_after"]) or r["after"]["eff"] != r["singles_after"]["eff"]:
+                v.append(("batch-vs-singles-state", f"batch -> {r['after']}, one by one -> {r['singles_after']}"))
+        if c.get("decoy") and r["decoy_polled"] != r["decoy_singles_polled"]:
+            v.append(("decoy-poll", f"second task polled = {r['decoy_polled']}, one by one "
+                      f"{r['decoy_singles_polled']}"))
+        if v:
+            return "; ".join(f"[{t}] {x}" for t, x in v[:4])
+        return None
+
+    def key(self, c, r):
+        if "exc" in r or len(c["batch"]) < 2 or not c["in_pool"]:
+            return None
+        if not (r["polled"] or r["after"]["st"] != r["before"]["st"]):
+            return None
+        return _json.dumps([c["n"], c["m"], c["k"], c["pre"], c["batch"]])
+
+    def classify(self, c, r, failure):
+        tag = failure.split("]")[0].lstrip("[") if failure.startswith("[") else "other"
+        return f"{self.name}:{tag}"
+
+    def shrink(self, c):
+        for i in range(len(c["batch"])):
+            if len(c["batch"]) > 1:
+                yield dict(c, batch=c["batch"][:i] + c["batch"][i + 1:])
+        for i in range(len(c["pre"])):
+            yield dict(c, pre=c["pre"][:i] + c["pre"][i + 1:])
+        if c.get("decoy"):
+            yield {k: v for k, v in c.items() if k != "decoy"}
+
+
+STREAMS = [C10Stream(), BatchStream()]
